@@ -41,7 +41,7 @@ def main(argv=None):
         return do_replay(mod, pid, args.replay)
 
     t0 = time.time()
-    tasks = mod.tasks(args.tier, seed)
+    tasks = runner.with_trace_variants(mod, mod.tasks(args.tier, seed), args.tier)
     if args.only:
         tasks = [t for t in tasks if args.only in json.dumps(t, default=str)]
     limit = getattr(mod, "TASK_LIMIT_S", {"quick": 240, "thorough": 3000})[args.tier]
@@ -161,7 +161,14 @@ def do_replay(mod, pid, path):
     if not os.path.isabs(path) and not os.path.exists(path):
         path = os.path.join(ROOT, path)
     rep = json.load(open(path))
-    r = mod.replay(runner.dejson(rep["replay"]))
+    rd = runner.dejson(rep["replay"])
+    from . import lib
+    lib.FORCE_TRACE = isinstance(rd, dict) and bool(rd.get("_trace"))
+    try:
+        lib.reset_globals()
+        r = mod.replay(rd)
+    finally:
+        lib.FORCE_TRACE = False
     if r:
         print("replay still fails: %s" % (r if isinstance(r, str) else json.dumps(r, default=str)[:2000]))
         print("VIOLATION property=%s replay=%s" % (pid, path))
